@@ -12,7 +12,7 @@ Definition show_fres (r : fres) : string :=
   end.
 Definition check (rs : list rune) : string := digest (show_fres (format_res rs)).
 Definition full (rs : list rune) : string := show_fres (format_res rs).
-Eval vm_compute in ("<<<M1599>>>" ++ check (runes_of_ascii "  packet
+Eval vm_compute in ("<<<M1601>>>" ++ check (runes_of_ascii "  packet
 
     metadata
 {
@@ -238,72 +238,150 @@ falsey
     // packet A { u8 x, }
     //
     , }")).
-Eval vm_compute in ("<<<M279>>>" ++ check (runes_of_ascii "  root packet
-    crc {	uint32
-repeatCount //
-@lengthOf( // a // b
-MetaDataX	) `say ""hi""` ,
-    @tag( 65535 ) A {
-    u128 , u8x	{ repeatCount  @lengthOf( As )// c
-,// packet A { u8 x, }
-i32	_x@calculatedFrom(//	t
-""" ++ [128512]%N ++ runes_of_ascii """	), } , } // c
-,
-@lengthOf(As ) @tag(  0 ) @tag(4294967296 ) string metadata ,
-string lengthOf // `tick` ""quote"" 'q'
-@lengthOf(f32a) , @tag( 3 )string packetx,	@lengthOf( Pad) @lengthOf( packetx ) BodyLength @calculatedFrom( ""a	b"" )
-, repeat u8x
-{ zchar[ 3 ]
-    tag `doc` , match As as leftPad
-    { [
-    10 ,
-3 , 7 ,
-""abc"" , 42 // @lengthOf(
-]
-:
-A
-, } , match Header as falsey { 42
-// `tick` ""quote"" 'q'
-// trailing space 
-:
-    msg_type
-    , 00
-: A
-1 :
-charz ,""// no comment"" : int // @lengthOf(
-,	0123456789 :chars , 4294967296
-: x } ,
+Eval vm_compute in ("<<<M1683>>>" ++ check (runes_of_ascii "
+options
+{  StringPrefixLenType  =
+u16;
+
+    ArrayPrefixLenType  = u16 ;
 }
-    /// triple
-    , @tag(
-10 ) @tag(//x
-007 )
-@calculatedFrom( ""`tick`""
-    )i8i8 @lengthOf(
-    //
-    charz ),
-    char[ 7] Header
-, } packet
-lengthOf // @lengthOf(
-{match metadata
-    // " ++ [128512]%N ++ runes_of_ascii " emoji
-    as asx{ 7 // packet A { u8 x, }
-: //
-float  ,
-    // " ++ [128512]%N ++ runes_of_ascii " emoji
-    """ ++ [233]%N ++ runes_of_ascii "t" ++ [233]%N ++ runes_of_ascii """:
-stringy
-, """ ++ [28040; 24687]%N ++ runes_of_ascii """ :
-BodyLength , 7 : leftPad , } , @lengthOf(MetaDataX
-)repeat zchar[ 7 ]float , @tag( 0
-    )matchKey @calculatedFrom(""packet""
-    ) // packet A { u8 x, }
-, }packet Pad{ options1 @lengthOf(rootA ),} root // c
-packet BodyLength{
-string uint8x
-//
-// " ++ [27880; 37322]%N ++ runes_of_ascii "
-@lengthOf( Z9_) , } // c")).
+packet 
+SampleBinary {
+
+    uint16 MsgType 
+`" ++ [28040; 24687; 31867; 22411]%N ++ runes_of_ascii "` , u16
+	BodyLenght @lengthOf(
+
+Body
+
+    ) 
+`" ++ [28040; 24687; 20307; 38271; 24230]%N ++ runes_of_ascii "`
+, match	MsgType
+
+    as	Body
+{
+
+    1 : Logon  , 2 
+:	Logout 
+, 3 
+:  Heartbeat
+	,4 :
+RiskControlRequest  , 5
+
+    : RiskControlResponse ,
+}	,	@calculatedFrom(
+	""CRC32""
+
+    )
+
+u32  Ckecksum `" ++ [26657; 39564; 21644]%N ++ runes_of_ascii "`, }
+
+packet
+	Logon{
+    @leftPad(
+
+    '0'	)
+char[10  ] UserName	`" ++ [29992; 25143; 21517]%N ++ runes_of_ascii "`
+,
+string
+
+    Password 
+`" ++ [23494; 30721]%N ++ runes_of_ascii "`
+	,
+
+    uint64
+	ClientId
+
+`" ++ [23458; 25143; 31471]%N ++ runes_of_ascii "ID`
+,u16
+
+HeartbeatInterval
+
+`" ++ [24515; 36339; 38388; 38548]%N ++ runes_of_ascii "`
+
+,
+
+    }
+
+packet 
+Logout
+    {
+
+@rightPad(	'0'  )char[10
+    ]
+UserName `" ++ [29992; 25143; 21517]%N ++ runes_of_ascii "`, 
+uint64 ClientId`" ++ [23458; 25143; 31471]%N ++ runes_of_ascii "ID` 
+, }
+
+packet
+    Heartbeat
+	{}
+packet
+
+RiskControlRequest
+{string
+    UniqueOrderId `" ++ [21807; 19968; 35746; 21333; 21495]%N ++ runes_of_ascii "` ,char[16
+]
+	ClOrdID
+	`" ++ [23458; 25143; 35746; 21333; 21495]%N ++ runes_of_ascii "` 
+, char[
+
+3 
+]MarketID `" ++ [24066; 22330]%N ++ runes_of_ascii "id`
+
+    , char[ 12
+]  SecurityID 
+`" ++ [35777; 21048; 20195; 30721]%N ++ runes_of_ascii "`
+
+,  char Side
+    `" ++ [20080; 21334; 26041; 21521]%N ++ runes_of_ascii "` ,
+
+    char  OrderType
+	`" ++ [35746; 21333; 31867; 22411]%N ++ runes_of_ascii "` 
+, u64  Price `" ++ [20215; 26684]%N ++ runes_of_ascii "`,	u32
+
+    Qty	`" ++ [25968; 37327]%N ++ runes_of_ascii "`
+,
+repeat	string
+ExtraInfo`" ++ [38468; 21152; 20449; 24687]%N ++ runes_of_ascii "` 
+,  repeat
+
+SubOrder { char[
+
+    16 ]  ClOrdID`" ++ [23376; 35746; 21333; 21495]%N ++ runes_of_ascii "`
+,
+
+u64
+
+    Price`" ++ [23376; 35746; 21333; 20215; 26684]%N ++ runes_of_ascii "`
+
+    ,
+
+    u32	Qty `" ++ [23376; 35746; 21333; 25968; 37327]%N ++ runes_of_ascii "` , } 
+,}packet 
+RiskControlResponse
+	{
+    string UniqueOrderId `" ++ [21807; 19968; 35746; 21333; 21495]%N ++ runes_of_ascii "`
+,i32
+
+    Status`" ++ [29366; 24577]%N ++ runes_of_ascii "`,
+	string	Msg
+	`" ++ [32467; 26524; 20449; 24687]%N ++ runes_of_ascii "`
+
+    ,	repeat
+
+Detail, } packet 
+Detail{
+
+string
+	RuleName 
+`" ++ [35268; 21017; 21517; 31216]%N ++ runes_of_ascii "` ,
+u16
+Code 
+`" ++ [21407; 22240; 20195; 30721]%N ++ runes_of_ascii "`
+    ,
+
+}")).
 Eval vm_compute in ("<<<M143>>>" ++ check (runes_of_ascii "
 packet  lengthOf
 {  @tag( 65535
@@ -370,7 +448,7 @@ pack ,
 string lengthOf , //x
 u8 falsey @calculatedFrom(
 ""a\\"" )  ,@calculatedFrom( ""it's"") string calculatedFrom @lengthOf( MetaDataX ) ,}")).
-Eval vm_compute in ("<<<M1795>>>" ++ check (runes_of_ascii "options {
+Eval vm_compute in ("<<<M1539>>>" ++ check (runes_of_ascii "options {
     FixedStringPadFromLeft = true;
     FixedStringPadChar = '0';
 }
@@ -426,845 +504,865 @@ root packet Ack {
     },
     u16 Ref @calculatedFrom(""CRC32""),
 }")).
-Eval vm_compute in ("<<<M188>>>" ++ check (runes_of_ascii "// packet A { u8 x, }
-root
-    packet
-    leftPad { @calculatedFrom(
+Eval vm_compute in ("<<<M1912>>>" ++ check (runes_of_ascii "options {
+    // " ++ [27880; 37322]%N ++ runes_of_ascii "
     //x
-    ""`tick`"" )	@rightPad( )
-    // " ++ [128512]%N ++ runes_of_ascii " emoji
-    string_
+    float = char[];
+    Header = false
+    //
+    /// triple
+}
+
 // `tick` ""quote"" 'q'
-// a // b
-@lengthOf(	tag
-    ) `a\` ,i64 T
-    `" ++ [233]%N ++ runes_of_ascii "`,//	t
-}
-packet
-Pad// @lengthOf(
-{ @lengthOf(	float ) char[] x@calculatedFrom(
-    ""a\""b"")
-    , // trailing space 
-@tag(
-    0// " ++ [128512]%N ++ runes_of_ascii " emoji
-) // " ++ [27880; 37322]%N ++ runes_of_ascii "
-repeatCount// packet A { u8 x, }
-,
-repeat rootA{
-_x
-    ,zchar[3 ]roots
-    /// triple
-    `crlf
-line` ,
-}
-,
-/// triple
-// a // b
-match
-    metadata as BodyLength
-    { [
-    // c
-    10 , 10 , ""a\""b"", """"	, ""\n""
-,  ""a\\"" , 4294967296]  :
-    u
-, }
-, repeat	i64_ Packet `" ++ [28040; 24687; 31867; 22411]%N ++ runes_of_ascii "`
-,@tag( // packet A { u8 x, }
-65535)
-    char[] float`it's`
-, char[7 ]
-    x @calculatedFrom( ""{,}"" ),
-    }MetaData leftPad// a // b
-{ body rootA
-`crlf
-line`
-, int64
-msg_type
-`doc`
-    , // @lengthOf(
-}
-")).
-Eval vm_compute in ("<<<M1954>>>" ++ check (runes_of_ascii "options {
-    zchar = char[]
-    Z9_ = '0';
-}
-
 options {
-    asx = char[]
+    x = char[];
 }
 
-root packet leftPad {
-    T @lengthOf(f32a),
-}//
-
-root packet calculatedFrom {
-    u {
-        //	t
-        char[] T `" ++ [233]%N ++ runes_of_ascii "`,
-        match stringy as chars {
-            [0123456789] : T,
-            // `tick` ""quote"" 'q'
-            // " ++ [27880; 37322]%N ++ runes_of_ascii "
-        },
-        uint16 a1 @lengthOf(x),
-        string chars `two words`,
-    },
-    @calculatedFrom(""x y"")
-    char[] body @lengthOf(lengthOf),
-    @lengthOf(A)
-    rootA,
-    @lengthOf(i64_)
-    // packet A { u8 x, }
-    repeat f32a {
-        lengthOf charz `" ++ [28040; 24687; 31867; 22411]%N ++ runes_of_ascii "`,
-    },
-    match tag as T {
-        [3] : falsey,
-    },
-    zchar[00] charz @lengthOf(Pad),
-    @tag(3)
-    lengthOf {
-        i16 As,
-    },
+MetaData i64_ {
+    f64 As `
+        `,
+    repeatCount MetaDataX,
+    repeatCount u128,
+    metadata msg_type `tab	here`,
 }
 
-root packet body {
-}")).
-Eval vm_compute in ("<<<M344>>>" ++ check (runes_of_ascii "options // a // b
-{	}
-    packet i8i8 { @tag(
-3 ) x
-@calculatedFrom(
-""it's""	) , @lengthOf( f32a ) match
-rootA
-as uint8x // @lengthOf(
-{ 0 : string_ 42 : Packet } , @leftPad
-(
-    '\x00'
-) i64_ packetx `u8 x,` ,
-    @calculatedFrom(""x y"" ) matchKey {len  ,
-    }  ,
-@lengthOf(  matchKey
-)
-    @calculatedFrom(// `tick` ""quote"" 'q'
-""abc"" ) @lengthOf( x_y_z )
-    /// triple
-    repeat metadata `line1
-line2` ,lengthOf repeatCount , /// triple
-int32
-// " ++ [27880; 37322]%N ++ runes_of_ascii "
-//	t
-roots @calculatedFrom( ""`tick`"")
-`" ++ [233]%N ++ runes_of_ascii "` , zchar[
-1	]	Packet	@calculatedFrom(	""// no comment"" ) ,} packet
-    options1
-{ @lengthOf(
-    uint8x ) A @calculatedFrom( ""it's""
-    )
-`doc`, } root packet crc
-{char[	65535	]chars
-,}
-")).
-Eval vm_compute in ("<<<M1633>>>" ++ check (runes_of_ascii "root packet u8x {
-    char i64_,
-    repeat char[1] Z9_,
+packet options1 {
+    repeat char[0123456789] T,
+    @tag(65535)
+    //x
+    @calculatedFrom(""CRC32"")
+    @calculatedFrom(""" ++ [28040; 24687]%N ++ runes_of_ascii """)
+    repeat string Logon,
+    @lengthOf(u128)
+    stringy {
+        string_ x,
+    },
+    @tag(10)
+    u64 tag @lengthOf(roots),
+    Foo @lengthOf(Foo) `// not a comment`,
+    string pack `a\`,
+    match A as charz {
+        [3] : x,
+    },
     @tag(42)
-    repeat Logon MetaDataX,
-    @leftPad()
-    Foo @lengthOf(As),
-    match u128 as calculatedFrom {
-        // " ++ [128512]%N ++ runes_of_ascii " emoji
-        4294967296 : BodyLength,
-        3 : A,
-        //
-        [4294967296, ""packet""] : o,
-        65535 : roots,
+    f64 msg_type @lengthOf(trueish),
+    match pack as options1 {
+        """ ++ [28040; 24687]%N ++ runes_of_ascii """ : string_,
+        [65535, 7, ""a\""b"", 7] : f32a,
+        4294967296 : o,
     },
-    repeat Pad {
-        uint64 x @calculatedFrom(""" ++ [128512]%N ++ runes_of_ascii """),
-        a1 @lengthOf(As) `line1
-                line2`,
-        repeat string_ {
-            repeat uint32 _x,
-            f32 MetaDataX `it's`,
-            u64 As @lengthOf(crc),
-        },
-        roots,
-    },
-    zchar[00] u128,
-}
-//	t")).
-Eval vm_compute in ("<<<M1723>>>" ++ check (runes_of_ascii "
-options	{
+    char[] falsey,
+}// " ++ [128512]%N ++ runes_of_ascii " emoji")).
+Eval vm_compute in ("<<<M1776>>>" ++ check (runes_of_ascii "  //x
+packet
 
-rootA
+    x
+    {	@lengthOf(
+string_
 
-=
-4294967296;
-falsey =""a\""b""; As = 
-
-    // @lengthOf(
-  /// triple
-	"""" ;
-packetx  =
-""packet""
-
-    i8i8= true
-;
-
-    } 	 // `tick` ""quote"" 'q'
-  packet
-x {
-    repeat zchar 
-rootA	,
-	char[]	pack
-	`// not a comment`
-, 
-@tag(  00
-)	@tag(
-0123456789
 )
+
+// `tick` ""quote"" 'q'
+    // trailing space 
+msg_type{ int// a // b
+
+@lengthOf(
+
+    chars  )
+
+    //x
+		// " ++ [27880; 37322]%N ++ runes_of_ascii "
+	`" ++ [28040; 24687; 31867; 22411]%N ++ runes_of_ascii "` ,
+int
+    `a\`
+
+    ,}
+    , 
+uint32 
+chars 
+@calculatedFrom( ""`tick`""	) 
+`
+` ,@lengthOf( 
+packetx 	 // trailing space 
+	)
+	match 
+metadata 
+as
+    x_y_z {
+65535:
+x ,007
+	    // `tick` ""quote"" 'q'
+
+  // " ++ [128512]%N ++ runes_of_ascii " emoji
+
+: 
 u
+    [7	, ""// no comment""
 
-@calculatedFrom( ""packet""	) 
-`u8 x,` ,
+    , """ ++ [28040; 24687]%N ++ runes_of_ascii """
+	]
 
-    Header { 
-zchar[ 00  ]
-body ,
-    a1
-@calculatedFrom( 	 // " ++ [128512]%N ++ runes_of_ascii " emoji
-	""it's"" ) `" ++ [233]%N ++ runes_of_ascii "`  ,
-
-    }
-
-    , }// " ++ [27880; 37322]%N ++ runes_of_ascii "
-	MetaData
-A// a // b
-      {
-zchar/// triple
-    matchKey
-
-    ``,
-int64	metadata,
-	char[] _x 	 //	t
-    ,
-    }")).
-Eval vm_compute in ("<<<M1119>>>" ++ check (runes_of_ascii "// top
-root // c0
-packet // c1
-_x // c2
-{ // c3
-match // c4
-Foo // c5
-as // c6
-Z9_ // c7
-{ // c8
-""a	b"" // c9
-: // c10
-Pad // c11
-, // c12
-} // c13
-, // c14
-repeat // c15
-x // c16
-`line1
-line2` // c17
-, // c18
-@rightPad // c19
-( // c20
-' ' // c21
-) // c22
-@calculatedFrom( // c23
-""a\\"" // c24
-) // c25
-metadata // c26
-MetaDataX // c27
-, // c28
-@tag( // c29
-0 // c30
-) // c31
-Logon // c32
-int // c33
-`` // c34
-, // c35
-} // c36
-options // c37
-{ // c38
-T // c39
-= // c40
-'\x00' // c41
-} // c42
-")).
-Eval vm_compute in ("<<<M1825>>>" ++ check (runes_of_ascii "// packet A { u8 x, }
-MetaData
-
-roots  { char[ 00
-
-    ] lengthOf
-`` ,As 
-stringy
-	,x  calculatedFrom	,	}
-packet i8i8 {
-	crc
-`crlf
-line`
-    ,
-
-@rightPad	// a // b
-	( )
-
-zchar[
-    42
-    ]falsey // trailing space 
-  , 
-  /// triple
-    @tag(
-    42
-)  u32
-
-    leftPad
-    , @tag( 42)a1@lengthOf( Z9_
-    )
-    ,
-match leftPad
-
-    as 
-crc{  [
-
-""a\""b""
+: x""a\\""
+	:MetaDataX 
 ,
-1
-,	255
 
-]
-	:
-trueish
-,
-    3
+0123456789 : lengthOf 10
+: 
+//
 
-    : 
-float
+  // `tick` ""quote"" 'q'
+      float
 
-    ,
-0:
+} ,  u16 Logon
+    @calculatedFrom(
+    ""x y""	)
+    `tab	here` 
+	    //	t
 
-lengthOf 
-, } , }
-")).
-Eval vm_compute in ("<<<M1950>>>" ++ check (runes_of_ascii "
-options
+//
 
-    {falsey=
-	int64
+,	@lengthOf(
 
-    ;u8x =
-uint32
-    uint8x
-	=  // " ++ [128512]%N ++ runes_of_ascii " emoji
-zchar[
+    Foo)zchar	/// triple
 
-    1]  
-      // @lengthOf(
-
-	/// triple
-      ; leftPad
-=  ""a	b"" ;calculatedFrom
-    =
-	false
-;
+	, }
+	packet
+	tag
+{ }	root packet
+    x_y_z
+{
 }	MetaData
-	Packet{ 
-zchar[
-	7
-
-    ]
-As ,
-    } 
-root packet pack	{
-
-@leftPad() @tag(// trailing space 
-  	7 )
-
-    zchar[
-
-3	]
-
-    u@lengthOf( 
-    // @lengthOf(
-	  // trailing space 
-  x
-
-)	, 
-}")).
-Eval vm_compute in ("<<<M1378>>>" ++ check (runes_of_ascii "
-options { LittleEndian
-
-    =
-	true
-
-    ; }	packet
-	Logon {u8 
-x
-    , }	packet	Logout
-
-    {  u16
-
-reason ,}
-root
-packet  Frame
+int
 
     {
-u8 Kind ,
+	string
 
-    u8
-	Kind2 ,
-
-match
-Kind
-	as Body	{
-
-    1	:  Logon 
-, [ 2 ,
-
-3 
-,
-	4
-
-    ]
-    :
-
-Logout	,
-100
-
-:  Logon 
-,}  ,
-    match
-    Kind2
-
-    as	Trailer
-
-    {0
-
-    :
-
-Logout
-, } 
-,	}")).
-Eval vm_compute in ("<<<M1597>>>" ++ check (runes_of_ascii "packet float {
-    // c2
-    @rightPad()
-    // c5a
-    // c5b
-    rootA @lengthOf(trueish),
-    // c10
-    stringy @lengthOf(matchKey),// c15a
-    // c15b
-    char[4294967296] pack @lengthOf(uint8x),
-    // c23
-}// c24
-
-root packet trueish {
-    // c28
-    repeat uint64 u128 `line1
-    line2`,
-    // c33
-}
-// c34")).
-Eval vm_compute in ("<<<M89>>>" ++ check (runes_of_ascii "packet Foo // " ++ [128512]%N ++ runes_of_ascii " emoji
-{@lengthOf( f32a )
-char[
-0123456789 //	t
-] float `u8 x,` ,}
-    packet // a // b
-i64_ {@lengthOf(stringy // packet A { u8 x, }
-)
-    char[] int @calculatedFrom(""{,}"" ) ,@tag(
-007 ) //
-int64
-stringy`" ++ [233]%N ++ runes_of_ascii "` ,  char[]A @calculatedFrom(
-""\" ++ [233]%N ++ runes_of_ascii """
-    )	`doc` ,// " ++ [27880; 37322]%N ++ runes_of_ascii "
-}
+A
+	`" ++ [233]%N ++ runes_of_ascii "` ,}
 ")).
-Eval vm_compute in ("<<<M254>>>" ++ check (runes_of_ascii "packet  zchar
-{ zchar[ 42
-//
-//
-]uint8x ,
-    match
-    A as
-As{
-    0: int
-    ,
-}
-, @tag(7 ) @calculatedFrom(
-""packet"" ) match
-i64_
-as metadata //	t
-{
-    ""CRC32"" :
-A , }
-,
-    // c
-    }	root
-packet
-uint8x {
-    char[ 00 ]	crc
-,// " ++ [128512]%N ++ runes_of_ascii " emoji
-} 	 ")).
-Eval vm_compute in ("<<<M183>>>" ++ check (runes_of_ascii "root
-packet tag {
-@calculatedFrom(
-""{,}""
-    // `tick` ""quote"" 'q'
-    )
-@tag(
-//x
-// " ++ [27880; 37322]%N ++ runes_of_ascii "
-42
-    )
-    i64_ @lengthOf( calculatedFrom ) , zchar[// " ++ [128512]%N ++ runes_of_ascii " emoji
-3 // @lengthOf(
-] int  , } root// c
-packet Foo { }
-// @lengthOf(
-")).
-Eval vm_compute in ("<<<M1874>>>" ++ check (runes_of_ascii "packet FooBar {
-    u8 a,
-    // c5
-}// c6
-
-packet foo_bar {
-    // c9
-    u16 b,// c12a
-    // c12b
-}// c13
-
-root packet R {
-    // c17a
-    // c17b
-    FooBar,
-    // c19
-    foo_bar,
-}")).
-Eval vm_compute in ("<<<M1195>>>" ++ check (runes_of_ascii "// top
+Eval vm_compute in ("<<<M1327>>>" ++ check (runes_of_ascii "// top
 packet
     // c0
-body
-    // c1
-{
-    // c2
-i32
-    // c3
-f32a
+Logon { // c2a
+  // c2b
+string // c3a
+  // c3b
+user
     // c4
-`{ , }`
-    // c5
-,
-    // c6
-}
+, // c5a
+  // c5b
+} // c6a
+  // c6b
+root
     // c7
-options
-    // c8
-{
-    // c9
-}
-    // c10
-")).
-Eval vm_compute in ("<<<M392>>>" ++ check (runes_of_ascii "packet packet uint8x
-{ match pack
-    as msg_type	{
-    0123456789 :	float
-}
+packet Frame // c9a
+  // c9b
+{ // c10
+u8
+    // c11
+K // c12
 ,
-} packet //	t
-a1
-    { } options {packetx
-    = '\x00'	; u128= ""a	b""  ; }
-")).
-Eval vm_compute in ("<<<M416>>>" ++ check (runes_of_ascii "packet uint8x
-{ match pack
-    as as msg_type	{
-    0123456789 :	float
-}
-,
-} packet //	t
-a1
-    { } options {packetx
-    = '\x00'	; u128= ""a	b""  ; }
-")).
-Eval vm_compute in ("<<<M701>>>" ++ check (runes_of_ascii "// @lengthOf(
-packet i8i8 { u128 o , }
-options { MetaDataX = true;
-    BodyLength =""packet"" ""packet"" x_y_z= 007
-crc //x
-= ""abc"" ;
-    msg_type =
-i16 }")).
-Eval vm_compute in ("<<<M462>>>" ++ check (runes_of_ascii "packet uint8x
-{ match pack
-    as msg_type	{
-    0123456789 :	float
-}
-,
-} a1 //	t
-packet
-    { } options {packetx
-    = '\x00'	; u128= ""a	b""  ; }
-")).
-Eval vm_compute in ("<<<M495>>>" ++ check (runes_of_ascii "packet uint8x
-{ match pack
-    as msg_type	{
-    0123456789 :	float
-}
-,
-} packet //	t
-a1
-    { } options {packetx
-     '\x00'	; u128= ""a	b""  ; }
-")).
-Eval vm_compute in ("<<<M398>>>" ++ check (runes_of_ascii "packet [
-{ match pack
-    as msg_type	{
-    0123456789 :	float
-}
-,
-} packet //	t
-a1
-    { } options {packetx
-    = '\x00'	; u128= ""a	b""  ; }
-")).
-Eval vm_compute in ("<<<M480>>>" ++ check (runes_of_ascii "packet uint8x
-{ match pack
-    as msg_type	{
-    0123456789 :	float
-}
-,
-} packet //	t
-a1
-    { }  {packetx
-    = '\x00'	; u128= ""a	b""  ; }
-")).
-Eval vm_compute in ("<<<M1782>>>" ++ check (runes_of_ascii "// top
-packet B {
-    // c2
-    u8 a,
-    string s,
-}
-
-root packet P {
     // c13
-    u16 L @lengthOf(B),
-    // c19
-    B,
-    u8 t,// c24
-}")).
-Eval vm_compute in ("<<<M1390>>>" ++ check (runes_of_ascii "
-packet	A
+match // c14
+K // c15
+as // c16
+Body
+    // c17
 {
-
-match 
-k as n  {[
-""a"" ,
-
-""bb""
-    ,""c c"" ,""d"" 
+    // c18
+1 :
+    // c20
+Logon // c21
+, // c22a
+  // c22b
+2 // c23
+: // c24a
+  // c24b
+Logout // c25a
+  // c25b
 ,
-""e"" ,""f""
-
+    // c26
+} // c27
+, // c28a
+  // c28b
+Tail , // c30a
+  // c30b
+} // c31a
+  // c31b
+packet
+    // c32
+Logout // c33a
+  // c33b
+{ // c34a
+  // c34b
+u16 // c35a
+  // c35b
+reason
+    // c36
+, }
+    // c38
+packet
+    // c39
+Tail
+    // c40
+{
+    // c41
+u32 crc
+    // c43
+, // c44
+} // c45a
+  // c45b
+")).
+Eval vm_compute in ("<<<M1118>>>" ++ check (runes_of_ascii "MetaData Packet
+    // c1
+{ // c2
+} packet // c4a
+  // c4b
+charz // c5a
+  // c5b
+{ // c6a
+  // c6b
+Foo // c7
+asx `it's` ,
+    // c10
+@lengthOf( // c11
+T )
+    // c13
+@calculatedFrom(
+    // c14
+"""" // c15
+)
+    // c16
+@calculatedFrom(
+    // c17
+""x y"" // c18
+) // c19a
+  // c19b
+zchar[ 007 // c21
+] repeatCount @lengthOf(
+    // c24
+int // c25
+)
+    // c26
+`a\`
+    // c27
+, // c28a
+  // c28b
+i8
+    // c29
+string_ // c30a
+  // c30b
+, // c31
+repeat // c32
+options1 // c33
+Pad
+    // c34
+, } // c36a
+  // c36b
+root packet
+    // c38
+Packet { int8 // c41
+float `doc` // c43
+, // c44
+}
+    // c45
+")).
+Eval vm_compute in ("<<<M327>>>" ++ check (runes_of_ascii "root packet asx
+    { tag body `u8 x,` , }
+packet string_ {
+    @lengthOf(
+len // a // b
+)repeat	zchar[ 42 ] u8x,zchar[ 0 ] asx
+    , } packet
+// " ++ [128512]%N ++ runes_of_ascii " emoji
+// " ++ [27880; 37322]%N ++ runes_of_ascii "
+int {repeat crc
+    { zchar float , match
+    i8i8 as rootA//x
+{ 255 : lengthOf , 1 :lengthOf
+,3
+    :
+roots , 3 : uint8x ,0
+    :As , ""`tick`"" :	repeatCount , }  , repeat
+/// triple
+//
+char[]
+falsey ,
+    u64 lengthOf ,} , @lengthOf( crc ) lengthOf i64_ , leftPad
+`crlf
+line`, }
+    root	packet zchar{ f32 _x @calculatedFrom( ""a\\"" ), }	MetaData chars // trailing space 
+{//
+}")).
+Eval vm_compute in ("<<<M210>>>" ++ check (runes_of_ascii "MetaData tag {
+//
+//
+char[// a // b
+3 ] // a // b
+msg_type
+    // c
+    , char[7 ] options1
 ,
-""g""
+    // trailing space 
+    float crc
+,calculatedFrom pack ,int64 u  `a\`,}
+packet leftPad{char[
+    1
+]
+    /// triple
+    zchar
+,
+    //
+    } packet crc { // c
+@lengthOf( packetx	) @lengthOf( asx)
+@lengthOf( packetx ) calculatedFrom {	f32 packetx	``
+// packet A { u8 x, }
+//x
+, },
+} options { Z9_
+= ""\" ++ [233]%N ++ runes_of_ascii """
+    // a // b
+    float = ' ' ; packetx = ""x y""
+    calculatedFrom  = int16
+    ;
+}")).
+Eval vm_compute in ("<<<M161>>>" ++ check (runes_of_ascii "packet rootA{ options1 _x , u64
+    Header , } packet lengthOf {
+    @rightPad ( ' '	)
+@lengthOf( u128 // trailing space 
+)	@calculatedFrom(	""a\""b"" )  A {string i64_	`it's`,
+//	t
+// trailing space 
+uint8
+body
+, match pack as u {
+// @lengthOf(
+// trailing space 
+00 : charz , 00: int ,3
+: falsey 255 :body
+    ,
+[0123456789 ] :x_y_z ,
+// a // b
+//
+}
+,
+} ,
+} MetaData chars{ u128
+    zchar , char[ 42  ]
+// a // b
+// a // b
+metadata
+    , }
+")).
+Eval vm_compute in ("<<<M1236>>>" ++ check (runes_of_ascii "// top
+options // c0a
+  // c0b
+{ f32a
+    // c2
+= // c3
+0 } // c5
+packet trueish // c7a
+  // c7b
+{ // c8
+}
+    // c9
+MetaData _x // c11
+{ char[ // c13a
+  // c13b
+0123456789 // c14
+] // c15a
+  // c15b
+zchar
+    // c16
+, // c17a
+  // c17b
+string // c18
+crc ,
+    // c20
+char[
+    // c21
+1 ] // c23a
+  // c23b
+options1
+    // c24
+, uint8 // c26a
+  // c26b
+repeatCount
+    // c27
+, // c28
+} // c29
+")).
+Eval vm_compute in ("<<<M236>>>" ++ check (runes_of_ascii "packet metadata{ //	t
+float64	body
+    @lengthOf( calculatedFrom ) , // a // b
+@tag(42
+    ) rootA ,
+    x_y_z u8x`// not a comment`
+    ,  @lengthOf(Pad)  match // " ++ [27880; 37322]%N ++ runes_of_ascii "
+packetx  as leftPad
+    {
+    //
+    65535 : tag ,
+""" ++ [128512]%N ++ runes_of_ascii """ :_x} , x_y_z  metadata , @tag(7 )int64 zchar @lengthOf(
+repeatCount ) `" ++ [233]%N ++ runes_of_ascii "`,@tag( 0123456789 ) repeat float chars ,	f32  MetaDataX
+,}")).
+Eval vm_compute in ("<<<M377>>>" ++ check (runes_of_ascii "packet crc {match  trueish
+    as
+len {
+42 : uint8x,// " ++ [128512]%N ++ runes_of_ascii " emoji
+""1"" :asx ,	3
+: body [ ""1"" , 0123456789]: u ""packet"" : o , } , } MetaData tag
+{
+    string
+o `line1
+line2`
+,
+char[] //
+Header `{ , }`// c
+,  uint8x Z9_, } MetaData
+tag
+{ i8 len , }
+    options //x
+{
+// `tick` ""quote"" 'q'
+/// triple
+x= 10;
+}
+")).
+Eval vm_compute in ("<<<M1316>>>" ++ check (runes_of_ascii "  packet
+
+    MDSnapshotZZ	{	u8
+
+a 
+, }  packet
+    OrderACK  { u16
+b, }packet
+	HTTPServerInfo	{
+string
+s
+
+    ,
+}	root
+    packet  FIXMsg
+    { u8
+KType
+,MDSnapshotZZ  , repeat
+
+    OrderACK,  match 
+KType as Body{1 :
+
+HTTPServerInfo  ,	2
+
+:OrderACK	,
+
+}
+
+    ,}")).
+Eval vm_compute in ("<<<M139>>>" ++ check (runes_of_ascii "packet//x
+x_y_z {rootA @lengthOf( o ) `two words` ,} MetaData f32a{
+trueish
+    // packet A { u8 x, }
+    x , }
+    MetaData body
+    { u128 pack , f64
+    // @lengthOf(
+    float	, char[ 65535
+//	t
+/// triple
+] tag `" ++ [233]%N ++ runes_of_ascii "`// c
+,  } // " ++ [128512]%N ++ runes_of_ascii " emoji")).
+Eval vm_compute in ("<<<M1593>>>" ++ check (runes_of_ascii "// top
+    root 	 // c0a
+    // c0b
+
+  packet P {
+    // c3
+
+u16 
+      // c4
+  a  
+      // c5
+	,  
+      // c6
+
+	u32 // c7a
+// c7b
+
+  Sum // c8
+    @calculatedFrom(  // c9a
+
+	// c9b
+    	""CRC32"") ,}  // c13")).
+Eval vm_compute in ("<<<M1889>>>" ++ check (runes_of_ascii "
+
+  root
+
+packet
+Frame{	u8 K	, 
+Logon
+first ,	match
+	K
+as 
+Body	{
+1 :
+Logon
     ,
 
-    ""h"" ,  ""i""
+    2
+: 
+Logout
 
-    ] :
+    , }  ,
 
-B 
-2:
-C
-} ,
-}
+} packet 
+Logon
+{
+	string
+user,}packet Logout {u16 reason ,
+    }
 
 ")).
-Eval vm_compute in ("<<<M1715>>>" ++ check (runes_of_ascii "packet A {
+Eval vm_compute in ("<<<M1606>>>" ++ check (runes_of_ascii "packet A {
     match k as n {
         [
-            1, 22, 007, 4, 5,
-            66, 7, 8
+            ""a"", 22, ""c c"", 4, ""e"",
+            66, ""g"", 8, ""i"", 10,
+            ""k""
         ] : B,
         2 : C,
     },
 }")).
-Eval vm_compute in ("<<<M34>>>" ++ check (runes_of_ascii "options {
-Logon = 0 } options { msg_type = 3
-    MetaDataX =
-    // " ++ [128512]%N ++ runes_of_ascii " emoji
-    int8
-    uint8x=""""
-    ;
-    As = '0' }")).
-Eval vm_compute in ("<<<M1166>>>" ++ check (runes_of_ascii "MetaData leftPad { chars MetaDataX , } packet repeatCount { char[ 255
-// c
-] uint8x `" ++ [233]%N ++ runes_of_ascii "` , } MetaData pack { As Foo , }")).
-Eval vm_compute in ("<<<M1398>>>" ++ check (runes_of_ascii "
-packet A	{  match k
-	as  n  {[	1
+Eval vm_compute in ("<<<M441>>>" ++ check (runes_of_ascii "packet uint8x
+{ match pack
+    as msg_type	{
+    0123456789 :	float float
+}
+,
+} packet //	t
+a1
+    { } options {packetx
+    = '\x00'	; u128= ""a	b""  ; }
+")).
+Eval vm_compute in ("<<<M403>>>" ++ check (runes_of_ascii "packet uint8x
+007 match pack
+    as msg_type	{
+    0123456789 :	float
+}
+,
+} packet //	t
+a1
+    { } options {packetx
+    = '\x00'	; u128= ""a	b""  ; }
+")).
+Eval vm_compute in ("<<<M550>>>" ++ check (runes_of_ascii "packet uint8x
+{ match pack
+    as msg_type	{
+    0123456789 :	caf" ++ [233]%N ++ runes_of_ascii "_1
+}
+,
+} packet //	t
+a1
+    { } options {packetx
+    = '\x00'	; u128= ""a	b""  ; }
+")).
+Eval vm_compute in ("<<<M512>>>" ++ check (runes_of_ascii "packet uint8x
+{ match pack
+    as msg_type	{
+    0123456789 :	float
+}
+,
+} packet //	t
+a1
+    { } options {packetx
+    = '\x00'	; =u128 ""a	b""  ; }
+")).
+Eval vm_compute in ("<<<M503>>>" ++ check (runes_of_ascii "packet uint8x
+{ match pack
+    as msg_type	{
+    0123456789 :	float
+}
+,
+} packet //	t
+a1
+    { } options {packetx
+    = char	; u128= ""a	b""  ; }
+")).
+Eval vm_compute in ("<<<M687>>>" ++ check (runes_of_ascii "// @lengthOf(
+packet i8i8 { u128 o , , }
+options { MetaDataX = true;
+    BodyLength =""packet"" x_y_z= 007
+crc //x
+= ""abc"" ;
+    msg_type =
+i16 }")).
+Eval vm_compute in ("<<<M694>>>" ++ check (runes_of_ascii "// @lengthOf(
+packet i8i8 { u128 o , }
+options { MetaDataX = true;
+    = BodyLength""packet"" x_y_z= 007
+crc //x
+= ""abc"" ;
+    msg_type =
+i16 }")).
+Eval vm_compute in ("<<<M1555>>>" ++ check (runes_of_ascii "
+
+  packet A { u8
+    a
+,
+    } packet	B{ u16
+b , }  root packet
+    P
+	{ 
+u8
+K,
+
+match
+K as
+    M 
+{  1
+:
+	A
+, 1
+
+:  B
 
     ,
-22 ,
-""c c"" 
-,4	, 5,
+}
 
-    ""f""
-
-, 
-7
-, 8
-,
-
-""i""
-]
-:  B  , 2  :C 
-} 
-, }")).
-Eval vm_compute in ("<<<M315>>>" ++ check (runes_of_ascii "packet Foo{ tag roots ,
-    // `tick` ""quote"" 'q'
-    i64_, @calculatedFrom( ""packet"" ) uint32 MetaDataX
-, }
+,}
 ")).
-Eval vm_compute in ("<<<M1276>>>" ++ check (runes_of_ascii "options {
+Eval vm_compute in ("<<<M1270>>>" ++ check (runes_of_ascii "options {
     LittleEndian = true;
 }
+packet B {
+    u8 a,
+    string s,
+}
 root packet P {
-    u16 a,
-    u32 Sum @calculatedFrom(""CRC32""),
+    u16 L @lengthOf(B),
+    B,
+    u8 t,
 }
 ")).
-Eval vm_compute in ("<<<M1248>>>" ++ check (runes_of_ascii "  options
-{LittleEndian 
-= true 
-; }
+Eval vm_compute in ("<<<M1905>>>" ++ check (runes_of_ascii "
+packet	A	{ match
+    k 
+as n
 
-    root  packet
+    {
+    [
+""a"" 
+,
+    22
 
-P {
+    ,
 
-    repeat
-char
-cs
+    ""c c"",
+4
+	]
 
-, u8
-	x, }
+:
+	B
 
+    2
+:C
+
+    } ,
+    }
 ")).
-Eval vm_compute in ("<<<M568>>>" ++ check (runes_of_ascii "
+Eval vm_compute in ("<<<M1950>>>" ++ check (runes_of_ascii "packet
+A{match k
+as n
+{
+    [ 1 ,	22
+,007, 4,	5
+, 66, 
+7
+
+    ,
+	8,
+9 , 10,
+	11
+    ]
+	: B
+,
+	2:
+
+C}
+
+    ,
+
+}
+")).
+Eval vm_compute in ("<<<M1172>>>" ++ check (runes_of_ascii "MetaData leftPad { chars MetaDataX , } packet repeatCount { char[ 255 ] uint8x `" ++ [233]%N ++ runes_of_ascii "`
+// c
+, } MetaData pack { As Foo , }")).
+Eval vm_compute in ("<<<M967>>>" ++ check (runes_of_ascii "packet A {
+    match k as n {
+        ""x\
+y"" : B,
+        [""x\
+y"", 1] : C,
+        [1,2,3,4,5,""x\
+y""] : D,
+    },
+}")).
+Eval vm_compute in ("<<<M1908>>>" ++ check (runes_of_ascii "packet A  {
+match
+    k	as
+
+    n {
+[
+""a""
+,
+
+    22 , ""c c""
+, 4
+,
+""e"" ] : B
+,
+
+    2
+	: C
+	} , }
+")).
+Eval vm_compute in ("<<<M353>>>" ++ check (runes_of_ascii "options { _x
+    =
+    ""`tick`""	;matchKey=
+""it's""
+;	options1
+    = u16 ; stringy= true
+    // c
+    }
+")).
+Eval vm_compute in ("<<<M1957>>>" ++ check (runes_of_ascii "  packet
+
+    A
+
+{Inner	{
+    u8 x
+    `x
+`
+
+    ,
+Deep
+{
+	u8 
+y`x
+`
+    , } 
+,	}
+
+    , } ")).
+Eval vm_compute in ("<<<M862>>>" ++ check (runes_of_ascii "packet A {
+  match k as n {
+    [""a"", ""bb"", 007, ""d"", ""e"", 66, ""g"", ""h""] : B,
+    2 : C
+  },
+}")).
+Eval vm_compute in ("<<<M608>>>" ++ check (runes_of_ascii "
 packet
-    asx {match match u128 as lengthOf
+    asx {match u128 as lengthOf
+{
+//	t
+// `tick` ""quote"" 'q'
+255 : x , ,
+    } ,	}")).
+Eval vm_compute in ("<<<M579>>>" ++ check (runes_of_ascii "
+packet
+    asx {match u128 lengthOf as
 {
 //	t
 // `tick` ""quote"" 'q'
 255 : x ,
     } ,	}")).
-Eval vm_compute in ("<<<M226>>>" ++ check (runes_of_ascii "// a // b
-packet Pad {
-    char[] // packet A { u8 x, }
-Z9_ @lengthOf( Pad
-) `{ , }` , } 	 ")).
-Eval vm_compute in ("<<<M1752>>>" ++ check (runes_of_ascii "options
-
-    {}  // " ++ [128512]%N ++ runes_of_ascii " emoji
-      options { float// `tick` ""quote"" 'q'
-  = 65535
-    }
-")).
-Eval vm_compute in ("<<<M850>>>" ++ check (runes_of_ascii "packet A {
+Eval vm_compute in ("<<<M828>>>" ++ check (runes_of_ascii "packet A {
   match k as n {
-    [""a"", ""bb"", 007, ""d"", ""e"", 66, ""g""] : B
+    [""a"", ""bb"", ""c c"", ""d"", ""e"", ""f""] : B,
     2 : C
   },
 }")).
-Eval vm_compute in ("<<<M1783>>>" ++ check (runes_of_ascii "  packet
-
-orderItem
-
-{
-    u8
-    a
-
-, 
-} root
-packet newOrder{orderItem ,	u8
-x ,  } ")).
-Eval vm_compute in ("<<<M853>>>" ++ check (runes_of_ascii "packet A {
-  match k as n {
-    [1, 22, 007, 4, 5, 66, 7, 8] : B
-    2 : C
-  },
-}")).
-Eval vm_compute in ("<<<M743>>>" ++ check (runes_of_ascii "int16 zchar[ } `doc` char u16 uint16 true false u8 msg_type """ ++ [233]%N ++ runes_of_ascii "t" ++ [233]%N ++ runes_of_ascii """ ""a\\"" pack")).
-Eval vm_compute in ("<<<M789>>>" ++ check (runes_of_ascii "packet A {
-  match k as n {
-    [""a"", ""bb"", ""c c""] : B,
-    2 : C
-  },
-}")).
-Eval vm_compute in ("<<<M801>>>" ++ check (runes_of_ascii "packet A {
-  match k as n {
-    [1, 22, 007, 4] : B
-    2 : C
-  },
-}")).
-Eval vm_compute in ("<<<M246>>>" ++ check (runes_of_ascii "MetaData x {x Packet
-,i32 lengthOf
-, // `tick` ""quote"" 'q'
+Eval vm_compute in ("<<<M1302>>>" ++ check (runes_of_ascii "packet order_item {
+    u8 a,
 }
-")).
-Eval vm_compute in ("<<<M1255>>>" ++ check (runes_of_ascii "root packet P {
-    hdr {
-        u8 a,
-    },
+root packet new_order {
+    order_item,
     u8 x,
 }
 ")).
-Eval vm_compute in ("<<<M1070>>>" ++ check (runes_of_ascii "packet A { match k as n { 1 : B // a // b 2 : C }, }")).
-Eval vm_compute in ("<<<M1213>>>" ++ check (runes_of_ascii "packet body { i32 f32a `{ , }` , } // c
-options { }")).
-Eval vm_compute in ("<<<M945>>>" ++ check (runes_of_ascii "MetaData M {
-    u8 x `a
-
-b`,
-    T t `a
-
-b`,
+Eval vm_compute in ("<<<M831>>>" ++ check (runes_of_ascii "packet A {
+  match k as n {
+    [1, ""bb"", 007, ""d"", 5, ""f""] : B
+    2 : C
+  },
 }")).
-Eval vm_compute in ("<<<M724>>>" ++ check (runes_of_ascii "// @lengthOf(
-packet i8i8 { u128 o , }
-opt")).
+Eval vm_compute in ("<<<M1546>>>" ++ check (runes_of_ascii "packet A {
+    match k as n {
+        [1, ""bb""] : B,
+        2 : C,
+    },
+}")).
+Eval vm_compute in ("<<<M1590>>>" ++ check (runes_of_ascii "root packet P {
+    u16 a,
+    u32 Sum @calculatedFrom(""CR\
+    C32""),
+}")).
+Eval vm_compute in ("<<<M739>>>" ++ check (runes_of_ascii "zchar[ i64 @calculatedFrom( match false ) Header char[ @lengthOf( :")).
+Eval vm_compute in ("<<<M365>>>" ++ check (runes_of_ascii "MetaData x_y_z { i8i8 u8x , string	uint8x
+    `crlf
+line` , }")).
+Eval vm_compute in ("<<<M1850>>>" ++ check (runes_of_ascii "MetaData M {
+    u8 x `x
+        `,
+    T t `x
+        `,
+}")).
+Eval vm_compute in ("<<<M627>>>" ++ check (runes_of_ascii "
+packet
+    asx {match u128 as lengthOf
+{
+//	t
+// `t")).
+Eval vm_compute in ("<<<M1217>>>" ++ check (runes_of_ascii "packet body { i32 f32a `{ , }` , } options { // c
+}")).
+Eval vm_compute in ("<<<M1753>>>" ++ check (runes_of_ascii "packet stringy {
+}
+
+MetaData crc {
+    u16 o,
+}")).
+Eval vm_compute in ("<<<M965>>>" ++ check (runes_of_ascii "options {
+    a = ""x\
+y"";
+    b = ""x\
+y""
+}")).
 Eval vm_compute in ("<<<M274>>>" ++ check (runes_of_ascii "packet Z9_
 { }
     packet Pad { } 	 ")).
-Eval vm_compute in ("<<<M952>>>" ++ check (runes_of_ascii "root packet A {
-    u8 x `x
-`,
+Eval vm_compute in ("<<<M958>>>" ++ check (runes_of_ascii "root packet A {
+    u8 x `
+x`,
 }")).
-Eval vm_compute in ("<<<M998>>>" ++ check (runes_of_ascii "packet A {
- u8 x `d" ++ [5760]%N ++ runes_of_ascii "`, // c" ++ [5760]%N ++ runes_of_ascii "
+Eval vm_compute in ("<<<M1013>>>" ++ check (runes_of_ascii "packet A {
+ u8 x `d" ++ [8232]%N ++ runes_of_ascii "`, // c" ++ [8232]%N ++ runes_of_ascii "
 }")).
-Eval vm_compute in ("<<<M947>>>" ++ check (runes_of_ascii "packet A {
-    u8 x `x
-`,
-}")).
-Eval vm_compute in ("<<<M770>>>" ++ check (runes_of_ascii "EJYa-@ZpfaJe_ojrLyZC9M")).
-Eval vm_compute in ("<<<M115>>>" ++ check (runes_of_ascii "MetaData roots{ } 	 ")).
-Eval vm_compute in ("<<<M744>>>" ++ check (runes_of_ascii "`" ++ [28040; 24687; 31867; 22411]%N ++ runes_of_ascii "` '0' options")).
-Eval vm_compute in ("<<<M1056>>>" ++ check (runes_of_ascii "packet A {
-}
-// c" ++ [6158]%N)).
-Eval vm_compute in ("<<<M1227>>>" ++ check (runes_of_ascii "packet
+Eval vm_compute in ("<<<M655>>>" ++ check (runes_of_ascii "// @lengthOf(
+packet i8i8 {")).
+Eval vm_compute in ("<<<M1104>>>" ++ check (runes_of_ascii "
 // c
-x { }")).
+MetaData tag { }")).
+Eval vm_compute in ("<<<M1129>>>" ++ check (runes_of_ascii "
+// c
+MetaData u { }")).
+Eval vm_compute in ("<<<M986>>>" ++ check (runes_of_ascii "packet A {
+}
+// c" ++ [160]%N)).
+Eval vm_compute in ("<<<M1225>>>" ++ check (runes_of_ascii "
+// c
+packet x { }")).
+Eval vm_compute in ("<<<M1231>>>" ++ check (runes_of_ascii "packet x {
+// c
+}")).
 Eval vm_compute in ("<<<M742>>>" ++ check (runes_of_ascii "'j=KG=k_)FDOq")).
-Eval vm_compute in ("<<<M1010>>>" ++ check (runes_of_ascii "// c" ++ [8232]%N)).
-Eval vm_compute in ("<<<M735>>>" ++ check ([0]%N)).
+Eval vm_compute in ("<<<M1005>>>" ++ check (runes_of_ascii "// c" ++ [8202]%N)).
+Eval vm_compute in ("<<<M734>>>" ++ check ([65279]%N)).
